@@ -69,7 +69,7 @@ TEXT = {
               'within the time budget.'),
     "design_ref": 'DESIGN.md 6 C01',
     "note": NOTE + ('Parts of the code answered `unmodelled` (counted in evidence) are covered by the oracle on the real code only: '
-              'date on a string receiver that is not one of the five all-digit layouts (nor rejected by every layout at its first field), '
+              'date on a string receiver that is not one of the five all-digit layouts (nor rejected by every layout at its first field) or that is `now` (the clock), '
               'strftime widths above 1024, instants beyond +-2^62 s, fmt of a time below an unexported struct field; in the model binary (not in the model\'s semantics) a loop over a range of more than 100000 '
               'items and the array conversion of a range of more than 10^6 items: the two numbers are the defaults of the budget parameters of the executable model (Cfg.budget, `convert`), which have no counterpart in the code; run_std_noPanic and the other theorems about `run` are stated for every value of the loop budget (it is a field of cfg), and run_noPanic / run_result for every value layer that satisfies PrimsNoPanic, while stdPrims (run_std_noPanic) fixes the conversion budget at its default 10^6 (stdPrims = stdPrimsB 1000000) - a render that gives an answer under some budgets gives the same answer under all larger ones (budget_monotone, budget_monotone_std, theorems of Proofs.C11 resting on Proofs.Budget, through every node and included file; both modules are audited under C11, not under this property), so an answer of the model is never an artefact of the budgets; only inputs beyond them are answered `unmodelled`, by the driver, which runs with the defaults; sort of more than 12 elements when the order '
               'is not a strict weak order or when tied elements are distinguishable (unstable sort); a custom block; pointer '
